@@ -31,7 +31,7 @@ const (
 
 var siteNames = [numSites]string{"get", "freshcheck", "use", "stamp", "hold", "verify", "put", "forget",
 	"rd.meta", "rd.sample", "rd.slice", "rd.channel", "rd.read", "rd.striped", "rd.conv", "rd.appendsrc",
-	"wr.slice", "wr.set", "wr.write", "wr.striped", "wr.channel", "wr.conv", "wr.read", "inner"}
+	"slice-own-window", "wr.set", "wr.write", "wr.striped", "wr.channel", "wr.conv", "wr.read", "inner"}
 
 // Probes: "this rare condition was hit" counters. A probe stuck at zero on
 // the unchanged tree means the workload must change.
